@@ -59,6 +59,46 @@ struct K2 : virtual K0 {};
 struct K3 : K1, K2 {};
 constexpr int PARENTS[4][2] = {{-1, -1}, {0, -1}, {0, -1}, {1, 2}};
 #define LATNAME "diamond"
+#elif LATTICE == 4 // an abstract class in the middle; constructors and destructors dispatch
+struct K0;
+static void (*g_life_hook)(K0&, int, bool) = nullptr;
+struct K0 {
+    K0() {
+        if (g_life_hook)
+            g_life_hook(*this, 0, true);
+    }
+    virtual ~K0() {
+        if (g_life_hook)
+            g_life_hook(*this, 0, false);
+    }
+};
+struct K1 : K0 {};
+struct K2 : K0 {
+    K2() {
+        if (g_life_hook)
+            g_life_hook(*this, 2, true);
+    }
+    ~K2() {
+        if (g_life_hook)
+            g_life_hook(*this, 2, false);
+    }
+    virtual void pure() = 0;
+};
+struct K3 : K2 {
+    K3() {
+        if (g_life_hook)
+            g_life_hook(*this, 3, true);
+    }
+    ~K3() {
+        if (g_life_hook)
+            g_life_hook(*this, 3, false);
+    }
+    void pure() override {
+    }
+};
+constexpr int PARENTS[4][2] = {{-1, -1}, {0, -1}, {0, -1}, {2, -1}};
+#define LATNAME "abstract-middle"
+#define HAS_LIFE_HOOK 1
 #else // the root is a second base at a non-zero offset
 struct K0 {
     virtual ~K0() {
@@ -148,6 +188,11 @@ struct W {
     struct k2r;
     struct k2m;
     struct kn;
+    struct kkv;
+    struct kks;
+    // const-qualified pointees
+    using Mkv = method<kkv, int(virtual_ptr<const K0, P>), P>;
+    using Mks = method<kks, int(virtual_ptr<std::shared_ptr<const K0>, P>), P>;
     using Mr = method<kr, int(virtual_<K0&>), P>;
     using Mv = method<kv, int(virtual_ptr<K0, P>), P>;
     using Mc = method<kc, int(const virtual_ptr<K0, P>&), P>;
@@ -187,6 +232,18 @@ struct W {
         return I;
     }
     template<int I>
+    static int dkv(virtual_ptr<const cls_t<I>, P> p) {
+        if (g_expect_addr && (const void*)static_cast<const K0*>(p.get()) != g_expect_addr)
+            g_addr_ok = false;
+        return I;
+    }
+    template<int I>
+    static int dks(virtual_ptr<std::shared_ptr<const cls_t<I>>, P> p) {
+        if (g_expect_addr && (const void*)static_cast<const K0*>(p.get().get()) != g_expect_addr)
+            g_addr_ok = false;
+        return I;
+    }
+    template<int I>
     static int d2r(cls_t<I>&, K0&) {
         return 10 + I;
     }
@@ -197,7 +254,7 @@ struct W {
 
     // removable definitions: the real thunks, registered / unregistered by hand
     // (what add_function's constructor and ~definition_info do)
-    static constexpr int NMETH = 7;
+    static constexpr int NMETH = 9;
     alignas(16) static inline unsigned char def_mem[NMETH][4][sizeof(d::definition_info)];
     static inline bool live[4];
 
@@ -230,6 +287,8 @@ struct W {
             link_def<Ms, ds<I>, void>(3, I);
             link_def<M2r, d2r<I>, void>(4, I);
             link_def<M2m, d2m<I>, void>(5, I);
+            link_def<Mkv, dkv<I>, void>(6, I);
+            link_def<Mks, dks<I>, void>(7, I);
         } else
             for (int m = 0; m < NMETH - 1; ++m)
                 unlink_def(m, I);
@@ -248,10 +307,10 @@ struct W {
             // the method called from inside dv<> has a definition for every
             // class, whatever subset the outer methods have
             once = true;
-            link_def<Mn, dn<0>, void>(6, 0);
-            link_def<Mn, dn<1>, void>(6, 1);
-            link_def<Mn, dn<2>, void>(6, 2);
-            link_def<Mn, dn<3>, void>(6, 3);
+            link_def<Mn, dn<0>, void>(8, 0);
+            link_def<Mn, dn<1>, void>(8, 1);
+            link_def<Mn, dn<2>, void>(8, 2);
+            link_def<Mn, dn<3>, void>(8, 3);
         }
         P::error = [](const error_type& e) {
             if (auto r = std::get_if<resolution_error>(&e))
@@ -323,7 +382,7 @@ struct W {
         check("copied", copy2);
         virtual_ptr<TB, P> moved(std::move(copy));
         check("moved", moved);
-        {
+        if constexpr (!std::is_abstract_v<TB>) {
             // assignment over a pointer that referred to another object
             cls_t<B> other;
             virtual_ptr<TB, P> a1(other), a2(other), a3(other);
@@ -337,6 +396,83 @@ struct W {
         if constexpr (B == D) {
             check("exact", virtual_ptr<TD, P>(o));
             check("final", virtual_ptr<TD, P>::final(o));
+        }
+        // const-qualified pointees, plain and shared
+        {
+            const TB& c_as_b = o;
+            const TD& c_o = o;
+            auto check_const = [&](const char* route, virtual_ptr<const TB, P> p) {
+                ++g_cases;
+                g_where = std::string(LATNAME) + " policy=" + pname() + " defs=" +
+                    std::to_string(defs) + " object=K" + std::to_string(D) + " static=const K" +
+                    std::to_string(B) + " route=" + route;
+                g_expect_addr = root_addr;
+                g_addr_ok = true;
+                virtual_ptr<const K0, P> up(p);
+                int got = guarded([&] { return Mkv::fn(up); });
+                g_expect_addr = nullptr;
+                g_facts += 3;
+                if (got != want)
+                    fail("call through the virtual_ptr<const> ran " + std::to_string(got) +
+                         ", plain reference ran " + std::to_string(want));
+                if (!g_addr_ok)
+                    fail("definition received another object than the pointee");
+                if (p.get() != &c_as_b)
+                    fail("get() does not give back the original object");
+            };
+            check_const("const-base-reference", virtual_ptr<const TB, P>(c_as_b));
+            check_const("const-from-non-const-reference", virtual_ptr<const TB, P>(as_b));
+            virtual_ptr<const TD, P> cpd2(c_o);
+            check_const("const-converted", virtual_ptr<const TB, P>(cpd2));
+            if constexpr (B == D) {
+                check_const("const-exact", virtual_ptr<const TD, P>(c_o));
+                check_const("const-final", virtual_ptr<const TD, P>::final(c_o));
+            }
+            auto check_const_shared = [&](const char* route,
+                                          virtual_ptr<std::shared_ptr<const TB>, P> p,
+                                          const void* addr, int want_s) {
+                ++g_cases;
+                g_where = std::string(LATNAME) + " policy=" + pname() + " defs=" +
+                    std::to_string(defs) + " object=K" + std::to_string(D) + " static=const K" +
+                    std::to_string(B) + " route=" + route;
+                g_expect_addr = addr;
+                g_addr_ok = true;
+                virtual_ptr<std::shared_ptr<const K0>, P> up(p);
+                int got = guarded([&] { return Mks::fn(up); });
+                g_expect_addr = nullptr;
+                g_facts += 3;
+                if (got != want_s)
+                    fail("call through the virtual_shared_ptr<const> ran " + std::to_string(got) +
+                         ", plain reference ran " + std::to_string(want_s));
+                if (!g_addr_ok)
+                    fail("definition received another object than the pointee");
+                if ((const void*)static_cast<const K0*>(p.get().get()) != addr)
+                    fail("get() does not give back the original object");
+            };
+            auto sp = std::make_shared<TD>();
+            K0& r = *sp;
+            int want_s = guarded([&] { return Mr::fn(r); });
+            std::shared_ptr<const TB> cspb = sp;
+            const std::shared_ptr<const TB> ccspb = sp;
+            check_const_shared("const-shared-from-lvalue",
+                               virtual_ptr<std::shared_ptr<const TB>, P>(cspb), &r, want_s);
+            check_const_shared("const-shared-from-const",
+                               virtual_ptr<std::shared_ptr<const TB>, P>(ccspb), &r, want_s);
+            check_const_shared("const-shared-from-rvalue",
+                               virtual_ptr<std::shared_ptr<const TB>, P>(std::shared_ptr<const TB>(sp)),
+                               &r, want_s);
+            virtual_ptr<std::shared_ptr<const TD>, P> cvd{std::shared_ptr<const TD>(sp)};
+            check_const_shared("const-shared-converted",
+                               virtual_ptr<std::shared_ptr<const TB>, P>(cvd), &r, want_s);
+            if constexpr (B == D) {
+                std::shared_ptr<const TD> lv = sp;
+                check_const_shared("const-shared-final",
+                                   virtual_ptr<std::shared_ptr<const TD>, P>::final(lv), &r, want_s);
+                auto made = make_virtual_shared<const TD, P>();
+                const K0& mr = *made.get();
+                int want_m = guarded([&] { return Mr::fn(const_cast<K0&>(mr)); });
+                check_const_shared("const-make_virtual_shared", made, &mr, want_m);
+            }
         }
         // shared flavours
         auto check_shared = [&](const char* route, virtual_ptr<std::shared_ptr<TB>, P> p,
@@ -416,7 +552,7 @@ struct W {
 
     template<int B, int D>
     static void pair(unsigned defs) {
-        if constexpr (le(D, B)) {
+        if constexpr (le(D, B) && !std::is_abstract_v<cls_t<D>>) {
             cls_t<D> o;
             routes<B, D>(o, defs);
         }
@@ -445,9 +581,40 @@ struct W {
             if (__builtin_popcount(defs) >= 1 && __builtin_popcount(defs) <= 3)
                 ++g_nontrivial;
             all_pairs(defs, std::make_integer_sequence<int, 16>());
+#ifdef HAS_LIFE_HOOK
+            // while a constructor or destructor runs, the dynamic type is the
+            // class under construction (possibly abstract): a virtual_ptr made
+            // there from a base reference dispatches like the plain reference
+            g_hook_defs = defs;
+            g_life_hook = life_hook;
+            {
+                K3 o3;
+                K1 o1;
+            }
+            g_life_hook = nullptr;
+#endif
         }
         set_defs(0);
     }
+#ifdef HAS_LIFE_HOOK
+    static inline unsigned g_hook_defs = 0;
+    static void life_hook(K0& self, int cls_index, bool ctor) {
+        ++g_cases;
+        g_where = std::string(LATNAME) + " policy=" + pname() + " defs=" +
+            std::to_string(g_hook_defs) + " object under " + (ctor ? "construction" : "destruction") +
+            " in K" + std::to_string(cls_index) + " route=base-reference";
+        int want = guarded([&] { return Mr::fn(self); });
+        virtual_ptr<K0, P> p(self);
+        int got = guarded([&] { return Mv::fn(p); });
+        int got_c = guarded([&] { return Mc::fn(p); });
+        g_facts += 3;
+        if (got != want || got_c != want)
+            fail("call through the virtual_ptr ran " + std::to_string(got) + "/" +
+                 std::to_string(got_c) + ", plain reference ran " + std::to_string(want));
+        if (p.get() != &self)
+            fail("get() does not give back the original object");
+    }
+#endif
 
     // ---- histories: ops 0..3 toggle definition i, 4 update, 5..8 create a
     // pointer to an object of class K3 / K1 by a route, 9 call through every
